@@ -209,6 +209,23 @@ func (set *TemplateSet) FromBytes(tpl []byte) (*Template, error) {
 
 // FromFile loads a template from a filename and returns a Template instance.
 func (set *TemplateSet) FromFile(filename string) (*Template, error) {
+	return set.fromFile(filename, 0)
+}
+
+// fromFileNested loads a template on behalf of another template which is
+// currently being compiled (include, extends, import, ssi).
+func (set *TemplateSet) fromFileNested(referrer *Template, filename string) (*Template, error) {
+	if referrer.nesting >= maxTemplateNesting {
+		return nil, &Error{
+			Filename:  filename,
+			Sender:    "nesting",
+			OrigError: fmt.Errorf("maximum template nesting depth reached (max is %v)", maxTemplateNesting),
+		}
+	}
+	return set.fromFile(filename, referrer.nesting+1)
+}
+
+func (set *TemplateSet) fromFile(filename string, nesting int) (*Template, error) {
 	atomic.StoreInt32(&set.firstTemplateCreated, 1)
 
 	_, _, fd, err := set.resolveTemplate(nil, filename)
@@ -228,7 +245,7 @@ func (set *TemplateSet) FromFile(filename string) (*Template, error) {
 		}
 	}
 
-	return newTemplate(set, filename, false, buf)
+	return newNestedTemplate(set, filename, false, buf, nesting)
 }
 
 // RenderTemplateString is a shortcut and renders a template string directly.
